@@ -29,43 +29,39 @@ Streams
                     search with the generator steered towards one shape at a time (hit counts per shape in the
                     evidence branches `quirk:<shape>:…`; KNOWN-FINDING lines);
   oracle.handwritten fixed templates with the expected output written next to them (margins, empty and comment-only
-                    suites, suites of defs / module code only, continued headers and clauses, blocks at margins,
+                    suites, suites of defs / module code only, continued headers and clauses, blocks at margins, `loop` used only
+                    in a nested def / call body,
                     for/else + break, with, typed and several excepts, `loop` after a caught exception, the
                     outermost `loop.parent`, form feed after a header colon, colon in a `% for` comment).
 
-`loop` and callables under a `% for` - what mako does, by direct experiment (every combination below was rendered;
-"ok" = the lexical reading of the property: `loop` read in the callable is the loop around it, a loop of its own has
-that loop as `parent`).  Callable kinds: nested <%def> (called in place), <%call> body, <%ns:def> body (= <%call>),
-anonymous <%block>, named <%block> (only allowed in the template body).  Positions of the `% for`: template body,
-<%def> body, <%call> body, anonymous block.  Content of the callable: N nothing about `loop`, R reads `loop`,
-F a `% for` of its own using `loop`/`loop.parent`, RF both.  "scope mentions" = the scope that holds the `% for`
-uses `loop` itself (outside the callable).
+`loop` and callables under a `% for` - what mako does, by direct experiment on the current /repo (every combination
+below was rendered; "ok" = the lexical reading of the property: `loop` read in the callable is the loop around it, a
+loop of its own has that loop as `parent`).  Callable kinds: nested <%def> (called in place), <%call> body, <%ns:def>
+body (= <%call>), anonymous <%block>, named <%block> (only allowed in the template body).  Positions of the `% for`:
+template body, <%def> body, <%call> body, anonymous block.  Content of the callable: N nothing about `loop`, R reads
+`loop`, F a `% for` of its own using `loop`/`loop.parent`, RF both.  Whether the scope that holds the `% for` mentions
+`loop` itself no longer matters (since /repo bca4969 it creates its `__M_loop` whenever the `% for` is rewritten;
+before, R/F/RF with the only mention inside a def / call body raised NameError `__M_loop` - F-C03-4, repaired).
 
-  callable                       for in       scope mentions  N    R                F                 RF
-  <%call>/<%ns:def> body         anywhere     no              ok   NameError (4)    NameError (4)     NameError (4)
-  <%call>/<%ns:def> body         anywhere     yes             ok   ok               ok                UnboundLocal (7)
-  nested <%def>                  def / block  no              ok   NameError (4)    NameError (4)     NameError (4)
-  nested <%def>                  def / block  yes             ok   ok               ok                UnboundLocal (7)
-  <%def> (= top-level def)       template     no              ok   NameError (4)    NameError (4)     NameError (4)
-  <%def> (= top-level def)       template     yes             ok   own scope: "No loop context" / parent None  (by design:
-                                                                   a module-level callable; the reference does the same)
-  <%def> directly in <%call>     that body    no              ok   NameError (4)    NameError (4)     NameError (4)
-  <%def> directly in <%call>     that body    yes             ok   No loop ctx (11) parent None (11b) No loop ctx (11)
-  anonymous <%block>             templ / def  either          ok   ok               ok                UnboundLocal (7)
-  anonymous <%block> in <%call>  that body    either          ok   No loop ctx (11) parent None (11b) No loop ctx (11)
-  <%def>/<%block> in <%call>     OUTSIDE it   no              ok   NameError (4)    NameError (4)     NameError (4)
-  <%def>/<%block> in <%call>     OUTSIDE it   yes             ok   ok               ok                UnboundLocal (7)
-  any callable                   anon. block  (block counts)  ok   ok               ok                UnboundLocal (7)
-  named <%block>                 template     either          ok   own scope, as a top-level def (by design); not generated
-  named <%block>                 def / call   -               CompileException (not allowed there)
+  callable                       for in            N    R                F                 RF
+  <%call>/<%ns:def> body         anywhere          ok   ok               ok                UnboundLocal (7)
+  nested <%def>                  def / block       ok   ok               ok                UnboundLocal (7)
+  <%def> (= top-level def)       template body     ok   own scope: "No loop context" / parent None  (by design: a
+                                                        module-level callable; the reference does the same)
+  <%def> directly in <%call>     that body         ok   No loop ctx (11) parent None (11b) No loop ctx (11)
+  anonymous <%block>             template / def    ok   ok               ok                UnboundLocal (7)
+  anonymous <%block> in <%call>  that body         ok   No loop ctx (11) parent None (11b) No loop ctx (11)
+  <%def>/<%block> in <%call>     OUTSIDE the call  ok   ok               ok                UnboundLocal (7)
+  any callable                   anonymous block   ok   ok               ok                UnboundLocal (7)
+  named <%block>                 template body     ok   own scope, as a top-level def (by design); not generated
+  named <%block>                 def / call        CompileException (not allowed there)
 
-  (4) F-C03-4: the `% for` is rewritten because LoopVariable finds `loop` below it, but no scope declares `__M_loop`
   (7) F-C03-7: the callable is a closure, assigns `loop` (its own rewritten `for`) and reads it
   (11)/(11b) F-C03-11: a <%def> / anonymous <%block> directly in a <%call> body (under its control lines) is
       written into `ccall` BESIDE body(), so it is no closure of the body: it has a LoopStack of its own
-Shapes of the classifier (`hazards`): loop-only-in-closure = (4), closure-mixed = (7), loop-in-call-body-def = (11),
-plus loop-only-in-call-expr (F-C03-5), unsized-len (F-C03-6), ret-in-buffering (F-C03-3).  A generated template with
-any of these shapes is not run in the main streams; oracle.quirks runs templates with exactly one of them.
+Shapes of the classifier (`hazards`): closure-mixed = (7), loop-in-call-body-def = (11), plus loop-only-in-call-expr
+(F-C03-5), unsized-len (F-C03-6), ret-in-buffering (F-C03-3).  A generated template with any of these shapes is not
+run in the main streams; oracle.quirks runs templates with exactly one of them.
 """
 from __future__ import annotations
 
@@ -112,6 +108,9 @@ ASSUMPTIONS = [
     "a nested def that reads the enclosing `loop` is called at the level of that loop only, not from a deeper "
     "`% for` (there the closure sees the deeper loop - Python's closure semantics - while textually its innermost "
     "enclosing loop is the outer one; the property text leaves it open)",
+    "while the shared code-generator model (Codegen/Model.lean `refsLoop`) predates /repo bca4969, templates with a "
+    "`% for` rewritten only because of a `loop` mention inside a nested def / <%call> body are left out of the three "
+    "`tgt` comparisons (probed at start-up, counted in the evidence branches); the native oracle judges them",
     "`_FOR_LOOP` (the regex that splits a `% for` header) is a parameter of the Lean model: the harness supplies "
     "target and iterable of the generated header",
     "the shared specification renderer (Codegen/Spec.lean) gives a nested def / <%call> body no enclosing loop; "
@@ -511,12 +510,10 @@ def hazards(body):
         if n[0] == "call":
             call_body(n[2], False)
 
-    def scope(sbody, avail_parent, lp_unsized, outer_loop):
-        """sbody: body of a callable; avail_parent: an enclosing scope declares __M_loop; lp_unsized: the loop
-        `loop` denotes on entry (closure) iterates an unsized iterable; outer_loop: `loop` denotes an enclosing
-        `% for` on entry"""
-        mentions = G.scope_mentions_loop(sbody)
-        avail = avail_parent or mentions
+    def scope(sbody, is_template_body, lp_unsized, outer_loop):
+        """sbody: body of a callable; is_template_body: <%def>s found here (also under control lines) are
+        module-level callables with a scope of their own, not closures; lp_unsized: the loop `loop` denotes on
+        entry (closure) iterates an unsized iterable; outer_loop: `loop` denotes an enclosing `% for` on entry"""
         own_for_detected = False
 
         def level(b, unsized, in_for):
@@ -540,8 +537,6 @@ def hazards(body):
                     det = G.detected(n)
                     if det:
                         own_for_detected = True
-                        if not avail:
-                            hz.add("loop-only-in-closure")
                     un = n[2][0] in ("gen", "iter")
                     if n[2][0] != "str":
                         for e in n[2][1]:
@@ -556,13 +551,16 @@ def hazards(body):
                     for sb in G.sub_bodies(n):
                         level(sb, unsized, in_for)
                 elif k == "def":
-                    scope(n[4], avail, unsized, in_for or outer_loop)
+                    if is_template_body:
+                        scope(n[4], False, False, False)
+                    else:
+                        scope(n[4], False, unsized, in_for or outer_loop)
                 elif k == "call":
                     for a in n[1][2] if n[1][0] == "call" else []:
                         check_len(a, unsized)
-                    scope(n[2], avail, unsized, in_for or outer_loop)
+                    scope(n[2], False, unsized, in_for or outer_loop)
                 elif k == "block":
-                    scope(n[3], avail, unsized, in_for or outer_loop)
+                    scope(n[3], False, unsized, in_for or outer_loop)
 
         def check_len(e, unsized):
             if e[0] == "loop" and e[1] in ("last", "reverse_index") and unsized:
@@ -577,7 +575,7 @@ def hazards(body):
                     check_len(a, unsized)
 
         level(sbody, lp_unsized, False)
-        if avail_parent and outer_loop and own_for_detected and _mentions_outside_for(sbody):
+        if outer_loop and own_for_detected and _mentions_outside_for(sbody):
             # the closure assigns `loop` (its own mangled for) and reads it
             hz.add("closure-mixed")
 
@@ -586,7 +584,7 @@ def hazards(body):
     rest = [n for n in body if n[0] != "def"]
     for d in top_defs:
         scope(d[4], False, False, False)
-    scope(rest, False, False, False)
+    scope(rest, True, False, False)
     return sorted(hz)
 
 
@@ -939,6 +937,10 @@ def first_diff(a, b):
 def target_corr(ctx, drv, items):
     """items: (body, lowered, cfg, impl): real code vs the Lean codegen's S-expression"""
     st = ctx.stream("corr.target")
+    if not shared_model_follows_bca4969(drv):
+        n0 = len(items)
+        items = [it for it in items if not closure_only_mention(it[0])]
+        ctx.branch("model:shared-codegen-model-predates-bca4969:skipped-templates", n0 - len(items))
     reqs = ["tgt gen " + G13.to_wire(low) for _, low, _, _ in items]
     outs = drv.ask_many(reqs)
     for (body, low, cfg, impl), o in zip(items, outs):
@@ -994,6 +996,37 @@ def closure_reads_loop(body):
     return any(n[0] in ("def", "call", "block") and _mentions_outside_for(G.sub_bodies(n)[0]) for n in G.walk(body))
 
 
+def closure_only_mention(body):
+    """a `% for` that is rewritten only because `loop` is mentioned inside a nested def / <%call> body below it,
+    in a scope that does not mention `loop` itself (the shape /repo bca4969 repaired)"""
+    def level(b, scope_mentions):
+        for n in b:
+            k = n[0]
+            if k == "for" and G.detected(n) and not scope_mentions:
+                return True
+            if k in ("if", "for", "while", "try", "with"):
+                if any(level(sb, scope_mentions) for sb in G.sub_bodies(n)):
+                    return True
+        return False
+    scopes = [body] + [G.sub_bodies(n)[0] for n in G.walk(body) if n[0] in ("def", "call", "block")]
+    return any(level(sc, G.scope_mentions_loop(sc)) for sc in scopes)
+
+
+_SHARED_MODEL_FOLLOWS = {}
+
+
+def shared_model_follows_bca4969(drv):
+    """does the shared code-generator model (Codegen/Model.lean, maintained with C13) already create a LoopStack
+    for a `% for` whose only `loop` mention sits in a <%call> body?  Probed once per run on a two-line template."""
+    if "v" not in _SHARED_MODEL_FOLLOWS:
+        probe = [["def", 1, [], {"buffered": False, "filters": [], "cached": False, "deco": False},
+                  [["expr", ["caller", 0, []], []]]],
+                 ["for", 2, [["lit", "p"]], [["call", ["call", 1, []], [], [["expr", ["loopindex"], []]]]]]]
+        o = drv.ask("tgt run %d %d n 0 1 n %s" % (10 ** 9, FUEL, G13.to_wire(probe)))
+        _SHARED_MODEL_FOLLOWS["v"] = o.startswith("val")
+    return _SHARED_MODEL_FOLLOWS["v"]
+
+
 def model_req(op, low, k):
     return "tgt %s %d %d n 0 1 n %s" % (op, k if k >= 0 else 10 ** 9, FUEL, G13.to_wire(low))
 
@@ -1016,6 +1049,8 @@ def behaviour_corr(ctx, drv, pending):
     """pending: (body, lowered, cfg, k, real result)"""
     st = ctx.stream("corr.behaviour")
     st2 = ctx.stream("corr.spec")
+    if not shared_model_follows_bca4969(drv):
+        pending = [p for p in pending if not closure_only_mention(p[0])]
     outs = drv.ask_many([model_req("run", low, k) for _, low, _, k, _ in pending])
     outs2 = drv.ask_many([model_req("spec", low, k) for _, low, _, k, _ in pending])
     for (body, low, cfg, k, real), o, o2 in zip(pending, outs, outs2):
@@ -1077,12 +1112,6 @@ def quirk_trees():
              ["text", "["], ["expr", ["call", 1, []]], ["text", "]"]],
             [["def", 1, [], F(filters=[2]), [["text", "x"], ["py", [["ret"]], None], ["text", "y"]]],
              ["text", "["], ["expr", ["call", 1, []]], ["text", "]"]]],
-        "loop-only-in-closure": [
-            [["def", 9, [], F(), [["for", 1, ["list", [["lit", "p"], ["lit", "q"]]],
-                                   [["def", 1, [], F(), [loop_i]], ["expr", ["call", 1, []]]], None, _o(2)]]],
-             ["expr", ["call", 9, []]]],
-            [["def", 1, [], F(), [["text", "("], ["expr", ["callerbody"]], ["text", ")"]]],
-             ["for", 1, ["list", [["lit", "p"], ["lit", "q"]]], [["call", ["call", 1, []], [loop_i]]], None, _o(2)]]],
         "loop-only-in-call-expr": [
             [["def", 1, [2], F(), [["text", "("], ["expr", ["var", 2]], ["expr", ["callerbody"]], ["text", ")"]]],
              ["for", 1, ["list", [["lit", "p"], ["lit", "q"]]],
@@ -1118,10 +1147,7 @@ _CLOSURES = {"text": 1, "expr": 5, "for": 7, "def": 6, "call": 6}
 QUIRKS = [
     ("ret-in-buffering", dict(ret_in_buffered=True, call_defs=True, p_def_flag=0.7,
                               constructs={"text": 5, "expr": 3, "def": 5, "ret": 2.5, "if": 1})),
-    ("loop-only-in-closure", dict(loop_only_in_closure=True, loop_only_in_call_expr=True, hide_direct_loop=1.0,
-                                  p_loop_in_call_args=0.0, p_loop_use=0.95, constructs=_CLOSURES, budget=16,
-                                  call_defs=True, p_callerbody=0.8)),
-    ("loop-only-in-call-expr", dict(loop_only_in_closure=True, loop_only_in_call_expr=True, hide_direct_loop=1.0,
+    ("loop-only-in-call-expr", dict(loop_only_in_call_expr=True, hide_direct_loop=1.0,
                                     p_loop_in_call_args=0.95, p_loop_use=0.95, budget=16,
                                     constructs={"text": 2, "expr": 2, "for": 7, "def": 4, "call": 8})),
     ("loop-in-call-body-def", dict(loop_in_call_body_def=True, p_loop_use=0.95, budget=26, call_defs=True,
@@ -1192,6 +1218,10 @@ def handwritten(ctx):
                              "% for b in [3]:\n(${loop.parent is None}${bool(loop.parent)}"
                              "${loop.parent.index if loop.parent else -1}${pdepth(loop)})\\\n% endfor\n% endfor\n", {},
          "TrueFalse-10(FalseTrue01)TrueFalse-10(FalseTrue11)", None),
+        ("loop-only-in-nested-def", "<%def name=\"w()\">\\\n% for a in ['p', 'q']:\n<%def name=\"k()\">${loop.index}</%def>${k()}\\\n"
+                                    "% endfor\n</%def>${w()}", {}, "01", None),
+        ("loop-only-in-call-body", "<%def name=\"c()\">(${caller.body()})</%def>\\\n% for a in ['p', 'q']:\n"
+                                   "<%call expr=\"c()\">${loop.index}</%call>\\\n% endfor\n", {}, "(0)(1)", None),
         ("loop-after-try", "% for a in [1, 2]:\n% try:\n% for b in [7, 8]:\n${loop.index}${boom()}\n% endfor\n% except Boom:\n"
                            "!${loop.index}\n% endtry\n% endfor\n", {"__k": 1}, "0\n1!0\n0\n1\n", None),
         ("modcode-only-suite", "% if x:\n<%! import os %>\\\n% endif\nok", {"x": 1}, "ok", None),
